@@ -12,6 +12,7 @@ from executorlib.standalone.command import get_command_path
 from executorlib.standalone.inputcheck import (
     check_resource_dict,
     check_resource_dict_is_empty,
+    check_resource_dict_keys,
 )
 from executorlib.standalone.interactive.communication import (
     SocketInterface,
@@ -133,6 +134,7 @@ class InteractiveExecutor(ExecutorBroker):
         spawner: BaseSpawner = MpiExecSpawner,
     ):
         super().__init__(max_cores=executor_kwargs.get("max_cores", None))
+        check_resource_dict_keys(resource_dict=executor_kwargs, spawner=spawner)
         executor_kwargs["future_queue"] = self._future_queue
         executor_kwargs["spawner"] = spawner
         self._set_process(
@@ -186,7 +188,9 @@ class InteractiveStepExecutor(ExecutorBase):
         spawner: BaseSpawner = MpiExecSpawner,
     ):
         super().__init__(max_cores=max_cores)
+        check_resource_dict_keys(resource_dict=executor_kwargs, spawner=spawner)
         self._default_cores = executor_kwargs.get("cores", 1)
+        self._spawner = spawner
         executor_kwargs["future_queue"] = self._future_queue
         executor_kwargs["spawner"] = spawner
         executor_kwargs["max_cores"] = max_cores
